@@ -6,7 +6,7 @@ open RedunModel RedunModel.Options
      val   ::= N | T | F | i<int> | s<hex> | (E s<cls> s<member value>) | (L val*) | (C s<id> val)
      dict  ::= (D (s<key> val)*)
      task  ::= (K dict dict)                      @task(**first, export_options=second)   (second empty = not given)
-     op    ::= (O dict) | (X dict)                .options(**dict) | .export_options(**dict)
+     op    ::= (O dict) | (X dict) | (R)          .options(**dict) | .export_options(**dict) | pickle.loads(pickle.dumps(task))
      call  ::= (J task (op*)) | (W dict)          task.op..op(...) | with_export_options(quote(..), dict)
      tree  ::= (T s<id> call (tree*))
    task <task> (op*)          → (ok dict dict (s<name>*)) | !TypeError | !ValueError     base, override, exported names
@@ -46,6 +46,7 @@ def toDict : Sexp → Option (Dict Val)
 def toOp : Sexp → Option TaskOp
   | .list [.atom "O", d] => (toDict d).map .options
   | .list [.atom "X", d] => (toDict d).map .exportOptions
+  | .list [.atom "R"] => some .roundtrip
   | _ => none
 
 /-- `none` = unparsable, `some (error e)` = the real constructor raises -/
@@ -57,7 +58,7 @@ def toTask (s : Sexp) (ops : Sexp) : Option (Except Err (TaskV × TaskV)) :=
     let ops ← ops.mapM toOp
     pure (do
       let reg ← mkTask b x
-      let var ← applyOps reg ops
+      let var ← applyOps reg reg ops
       pure (reg, var))
   | _, _ => none
 
